@@ -457,6 +457,16 @@ def file_case(case):
                                 f'(records per collection {counts}, write_count {wc}, window {win})',
                                 expected=[''.join(flushed), held], observed=[text, got_held])
             states.append((text, tuple(got_held)))
+        # the run stops here (between two flushes, in general) and the model is dropped: what the file holds is what
+        # was flushed while the run was alive - nothing is appended behind the user's back afterwards
+        final = open(path).read() if os.path.exists(path) else ''
+        del col, model
+        import gc
+        gc.collect()
+        after = open(path).read() if os.path.exists(path) else ''
+        if after != final:
+            raise Violation(f'the output file changed after the run had stopped and the model was dropped (records per '
+                            f'collection {counts}, write_count {wc}, window {win})', expected=final, observed=after)
         return tuple(states)
     finally:
         shutil.rmtree(tmp, ignore_errors=True)
